@@ -56,7 +56,7 @@ DECODE_TREE = [j("_authentication:%s.unpack" % n) for n in ("SimpleCredential", 
               [j("_filter:_unpack_filter_attribute_value_assertion")] + \
               [j("_messages:_unpack_%s" % n) for n in ("bind_request", "bind_response", "extended_request", "extended_response", "search_request",
                                                        "search_result_done", "search_result_entry", "search_result_reference", "ldap_result", "partial_attribute")] + \
-              [j("_messages:_unpack_ldap_message_content", None, "_messages:_unpack_ldap_message_content[containment]")]
+              [dict(j("_messages:_unpack_ldap_message_content", None, "_messages:_unpack_ldap_message_content[containment]"), part=[k, 6]) for k in range(6)]
 # readers the decode tree calls: their `raises` clauses and the progress clause are what containment rests on
 READER_METHODS = [j("asn1:" + n) for n in ("ASN1Reader.peek_header", "ASN1Reader.skip_value", "ASN1Reader.read_octet_string", "ASN1Reader.read_boolean",
                                            "ASN1Reader.read_integer", "ASN1Reader.read_enumerated", "ASN1Reader.read_sequence", "ASN1Reader.read_set", "_read_asn1_header", "_validate_tag",
@@ -83,7 +83,7 @@ FILTER_TEXT = [j("_filter:" + n) for n in ("LDAPFilter.from_string", "_unpack_fi
 VALUE_DECODERS = [j("_authentication:SimpleCredential.unpack"), j("_authentication:SaslCredential.unpack"), j("_filter:_unpack_filter_attribute_value_assertion")] + \
                  [j("_filter:%s.unpack" % n) for n in ("FilterEquality", "FilterGreaterOrEqual", "FilterLessOrEqual", "FilterApproxMatch", "FilterPresent")] + \
                  [j("_messages:_unpack_%s" % n) for n in ("bind_request", "search_request", "extended_request", "ldap_result", "search_result_done", "bind_response", "extended_response")] + \
-                 [j("specs.ldapmsg:" + n) for n in ("lemma_nth_rest_step", "lemma_rt_extended_request")]
+                 [j("specs.ldapmsg:" + n) for n in ("lemma_nth_rest_step", "lemma_rt_extended_request")] + DECODE_TREE[-6:]
 # C01: what the encoder's relation means for the decoder's postcondition (lemmas), and the round trip theorems that take both
 # postconditions as hypotheses over the same octets
 RT_LEMMAS = [j("specs.ldapmsg:" + n) for n in ("lemma_strs_enc_nth", "lemma_strs_enc_end", "lemma_strs_enc_nonempty", "lemma_opt_single", "lemma_opt_pair",
@@ -92,7 +92,7 @@ _VD_NOTE = ("Proved for all octets (value-level postconditions over the X.690 de
             "the mechanism - anything else is an ignored trailing element), the four AttributeValueAssertion filter choices and `present`, the leading components of BindRequest (version, name), all fixed components of SearchRequest, "
             "LDAPResult with its optional referral list (URIs = contents of the elements, in order), and the optional context-tagged components of ExtendedRequest / BindResponse / ExtendedResponse as a fold over the element stream "
             "(the last element with the tag wins, every unrecognised element is skipped: 'unknown trailing elements do not change the result' for all inputs). For ExtendedRequest the composition with the encoder's relation is a proved lemma "
-            "(lemma_rt_extended_request): decoding what the encoder emits gives back name and value. ")
+            "(lemma_rt_extended_request): decoding what the encoder emits gives back name and value. The envelope decoder returns the messageID denoted by the first element and the message class selected by the APPLICATION tag number of the second. ")
 
 REGISTRY = {
     "C07": {"jobs": LEMMAS_BER + ASN1_FUNCS, "native": "native_c07.py",
